@@ -48,18 +48,6 @@ theorem c_bTail (sh : Sh) (pp : PPc) (app : SpscA.PPc) (acp : SpscA.CPc) (d : Bo
     case ploc => frameP
     fin
 
-/-- the copy out of the head block is the level-A slot range -/
-theorem copy_eq_slots (sh : Sh) (e : Nat) (hB : 0 < sh.B) (h1 : e ≤ (sh.headIdx / sh.B + 1) * sh.B)
-    (ahead : sh.a.head = sh.headIdx)
-    (pay : ∀ (i : Nat), sh.headIdx ≤ i → i < e → sh.val sh.headBlk (i % sh.B) = sh.a.val i) :
-    copy sh sh.headBlk sh.headIdx (e - sh.headIdx) = SpscA.slots sh.a sh.a.head (e - sh.a.head) := by
-  simp only [copy, SpscA.slots, ahead]
-  apply List.map_congr_left
-  intro k hk
-  have hk' : k < e - sh.headIdx := List.mem_range.mp hk
-  rw [← mod_in_block sh.headIdx k sh.B hB (by omega)]
-  exact pay _ (by omega) (by omega)
-
 set_option maxHeartbeats 1000000 in
 theorem c_bBlk (sh : Sh) (pp : PPc) (app : SpscA.PPc) (acp : SpscA.CPc) (d : Bool) (hi ce : Nat) (e : Env) (s' : St)
     (h : Inv ⟨sh, pp, .bBlk d hi ce, app, acp⟩) (hs : step ⟨sh, pp, .bBlk d hi ce, app, acp⟩ (.cons e) = some s') :
@@ -69,30 +57,61 @@ theorem c_bBlk (sh : Sh) (pp : PPc) (app : SpscA.PPc) (acp : SpscA.CPc) (d : Boo
   obtain ⟨rfl, hce⟩ := cloc
   have hlt := ainv.cbg d ce rfl
   simp only [] at hlt
-  have hph : sh.ph = 1 := by grind
-  have hcp : ∀ u, copy { sh with uaf := u } sh.headBlk sh.headIdx (ce - sh.headIdx) =
-      SpscA.slots sh.a sh.a.head (ce - sh.a.head) := by
-    intro u
-    show copy sh sh.headBlk sh.headIdx (ce - sh.headIdx) = _
-    apply copy_eq_slots sh ce bpos hce ahead
-    intro i h1 h2
-    have := div_in_block sh.headIdx i sh.B bpos h1 (by omega)
-    have := pay i h1 (by omega) (by omega)
-    grind
-  simp only [SpscA.cstep, Option.some.injEq, hcp] at hs
+  have h0 : ([] : List Nat) = SpscA.slots sh.a sh.headIdx (sh.headIdx - sh.headIdx) := by simp [SpscA.slots]
+  simp only [Option.some.injEq] at hs
   subst hs
-  by_cases hc : ce % sh.B = 0 <;> simp only [hc, ↓reduceIte]
-  · have := div_block_end sh.headIdx ce sh.B bpos (by omega) hce hc
-    have := div_mono ce (sh.tailIdx + pubf pp) sh.B
+  splitC
+  case ploc => frameP
+  case cloc => exact ⟨trivial, Nat.le_refl _, by omega, hlt.2, hce, h0⟩
+  fin
+
+set_option maxHeartbeats 1000000 in
+theorem c_bRd (sh : Sh) (pp : PPc) (app : SpscA.PPc) (acp : SpscA.CPc) (d : Bool) (hb ci ce : Nat) (acc : List Nat)
+    (e : Env) (s' : St)
+    (h : Inv ⟨sh, pp, .bRd d hb ci ce acc, app, acp⟩) (hs : step ⟨sh, pp, .bRd d hb ci ce acc, app, acp⟩ (.cons e) = some s') :
+    Inv s' := by
+  obtain rfl : acp = .bGet d ce := h.projc
+  openC
+  obtain ⟨rfl, hci, hlt, htl, hce, rfl⟩ := cloc
+  have hph : sh.ph = 1 := by grind
+  have hdiv := div_in_block sh.headIdx ci sh.B bpos hci (by omega)
+  -- the slot read is the level-A payload of slot `ci`
+  have hv : sh.val sh.headBlk (ci % sh.B) = sh.a.val ci := by
+    have := pay ci hci (by omega) (by omega)
+    grind
+  have hacc : SpscA.slots sh.a sh.headIdx (ci - sh.headIdx) ++ [sh.val sh.headBlk (ci % sh.B)] =
+      SpscA.slots sh.a sh.headIdx (ci + 1 - sh.headIdx) := by
+    have h1 : ci + 1 - sh.headIdx = (ci - sh.headIdx) + 1 := by omega
+    have h2 : sh.headIdx + (ci - sh.headIdx) = ci := by omega
+    rw [h1, slots_succ, h2, hv]
+  simp only [hacc] at hs
+  by_cases hnx : ci + 1 < ce
+  · -- one more slot to read: a stutter
+    simp only [eq_true hnx, ↓reduceIte, Option.some.injEq] at hs
+    subst hs
     splitC
-    case ainv => exact SpscA.p_cons _ _ _ .go ainv _ _ rfl
     case ploc => frameP
+    case cloc => exact ⟨trivial, by omega, hnx, htl, hce, trivial⟩
     fin
-  · have := div_block_mid sh.headIdx ce sh.B bpos (by omega) hce hc
-    splitC
-    case ainv => exact SpscA.p_cons _ _ _ .go ainv _ _ rfl
-    case ploc => frameP
-    fin
+  · -- the last read: level A takes all the values
+    have hlast : ci + 1 = ce := by omega
+    subst hlast
+    have hsl : SpscA.slots sh.a sh.headIdx (ci + 1 - sh.headIdx) = SpscA.slots sh.a sh.a.head (ci + 1 - sh.a.head) := by
+      rw [ahead]
+    simp only [eq_false hnx, ↓reduceIte, SpscA.cstep, Option.some.injEq, hsl] at hs
+    subst hs
+    by_cases hc : (ci + 1) % sh.B = 0 <;> simp only [hc, ↓reduceIte]
+    · have := div_block_end sh.headIdx (ci + 1) sh.B bpos (by omega) hce hc
+      have := div_mono (ci + 1) (sh.tailIdx + pubf pp) sh.B
+      splitC
+      case ainv => exact SpscA.p_cons _ _ _ .go ainv _ _ rfl
+      case ploc => frameP
+      fin
+    · have := div_block_mid sh.headIdx (ci + 1) sh.B bpos (by omega) hce hc
+      splitC
+      case ainv => exact SpscA.p_cons _ _ _ .go ainv _ _ rfl
+      case ploc => frameP
+      fin
 
 set_option maxHeartbeats 1000000 in
 theorem c_bNext (sh : Sh) (pp : PPc) (app : SpscA.PPc) (acp : SpscA.CPc) (d : Bool) (hb ce : Nat) (vals : List Nat)
